@@ -29,7 +29,7 @@ fn unpack(mut p: u32) -> Vec<u8> {
     v.reverse();
     v
 }
-fn show_abs(a: &Abs) -> String {
+pub fn show_abs(a: &Abs) -> String {
     format!("{:?}", a.iter().map(|&p| unpack(p)).collect::<Vec<_>>())
 }
 fn norm(mut v: Vec<u32>) -> Abs {
